@@ -43,7 +43,9 @@ def decodable_types(L, stream=True):
 @st.composite
 def target(draw, L, stream=True):
     """(type name, command code or None, encryption flag)."""
-    t = draw(st.sampled_from(decodable_types(L, stream)))
+    # messages are what captures hold: every other target is a command, a response or a stream
+    msgs = ["Command", "Response"] + (["CommandResponseStream"] if stream else [])
+    t = draw(st.one_of(st.sampled_from(decodable_types(L, stream)), st.sampled_from(msgs)))
     cc, enc = None, False
     if t == "Response":
         cc = L.commands[draw(st.sampled_from(sorted(L.commands)))]["code"]
